@@ -605,3 +605,55 @@ Proof. intros I L Hb. pose proof (step_inv s e I) as I'. unfold inst_ok.
   - rewrite Hret. destruct (snd (step s (ERecoverAll ord))); reflexivity.
   - rewrite Hret, step_snd. reflexivity.
   - rewrite Hret, step_snd. reflexivity. Qed.
+
+(* ---------- the whole script ---------- *)
+Lemma mtrace_pass n fs evs : forall s x, MI s x -> Forall (ev_bounded n) evs -> spec_walk n x (mtrace n fs s evs) = [].
+Proof. induction evs as [|e r IH]; intros s x M Hb; [reflexivity|]. inversion Hb as [|? ? Hbe Hbr]; subst.
+  cbn [mtrace]. rewrite spec_walk_cons.
+  set (s' := fst (step s e)). set (o := model_obs n s' (snd (step s e)) fs). set (x' := sp_event x e o).
+  pose proof (MI_step n fs s x e M) as M'. fold s' o x' in M'.
+  pose proof (os_q n fs s x e M) as Hq. fold s' o in Hq.
+  rewrite (IH s' x' M' Hbr), app_nil_r. unfold codes_at. cbv zeta. fold x'.
+  pose proof (code11_ok n fs s e (mi_inv _ _ M) (mi_linv _ _ M) Hbe) as H11. fold s' in H11. fold o in H11.
+  pose proof (code14_ok n s' x' (snd (step s e)) fs M') as H14. fold o in H14.
+  rewrite H11, H14. cbn [app]. rewrite Hq.
+  destruct (quiescent s') eqn:Q; cbn [andb].
+  - pose proof (code10_ok n s' x' (snd (step s e)) fs M' Q) as H10. fold o in H10. rewrite H10. cbn [negb app].
+    destruct (sp_heal x') as [d0|] eqn:Hh; [|reflexivity].
+    pose proof (code13_ok n s' x' (snd (step s e)) fs d0 M' Q Hh) as H13. fold o in H13. now rewrite H13.
+  - destruct (sp_heal x'); reflexivity. Qed.
+
+Definition dm_of (i : list (N * bool)) : list (N * N) := map (fun e => (fst e, mode_code (snd e))) i.
+
+Lemma init_of_dm q np n pins i : init_of (q, np, n, pins, dm_of i) = init q np (map (fun p => (pcid p, p)) pins) i.
+Proof. cbn [init_of]. f_equal. unfold dm_of. rewrite map_map. cbn [fst snd]. rewrite <- (map_id i) at 2. apply map_ext.
+  intros [c d]. cbn. destruct d; reflexivity. Qed.
+
+Lemma wf_pins pins : NoDup (map pcid pins) -> wf_pinset (map (fun p => (pcid p, p)) pins).
+Proof. intros H. split.
+  - unfold akeys. rewrite map_map. exact H.
+  - intros c p Hp. apply aget_some_in in Hp. apply in_map_iff in Hp. destruct Hp as [p' [E _]]. injection E as <- <-. reflexivity. Qed.
+
+Lemma MI_init q np n pins i : (0 < np)%nat -> NoDup (map pcid pins) ->
+  MI (init q np (map (fun p => (pcid p, p)) pins) i) (sp_init (q, np, n, pins, dm_of i)).
+Proof. intros Hnp Hnd. constructor; cbn [sp_init sp_pinset sp_last sp_hist sp_unt sp_remok sp_prev_dm sp_prev_inf sp_prev_q sp_heal].
+  - apply init_inv. - apply init_linv. now apply wf_pins. - exact Hnp. - apply init_dispatched.
+  - reflexivity. - reflexivity.
+  - intros c p Hp. apply aget_some_in in Hp. apply in_map_iff in Hp. destruct Hp as [p' [E Hin]]. injection E as _ <-. exact Hin.
+  - intros c o H. discriminate.
+  - intros c []. - intros c [].
+  - reflexivity. - reflexivity. - reflexivity.
+  - discriminate. Qed.
+
+Theorem tracker_model_passes_monitor_l q np n pins i fs evs :
+  (0 < np)%nat -> NoDup (map pcid pins) -> Forall (ev_bounded n) evs ->
+  let cf := (q, np, n, pins, dm_of i) in spec_codes cf (mtrace n fs (init_of cf) evs) = [].
+Proof. intros Hnp Hnd Hb. cbv zeta. unfold spec_codes. cbn [ncid_of]. rewrite init_of_dm.
+  rewrite (mtrace_pass n fs evs _ _ (MI_init q np n pins i Hnp Hnd) Hb). reflexivity. Qed.
+
+(* without a worker (ConcurrentPins = 0, which the configuration rejects) and with a cid the observation does not list,
+   the two notions of quiescence part: the operation stays queued, nothing is in flight, no listed status is pending *)
+Lemma quiescence_needs_worker :
+  let s := fst (step (init 1 0 [] []) (ETrack (mk_pin 5 false false false 0))) in
+  quiescent s = false /\ o_quiescent (model_obs 1 s ROk []) = true.
+Proof. vm_compute. split; reflexivity. Qed.
